@@ -53,12 +53,8 @@ def normpath (p : Str) : Str :=
     let pre := List.replicate lead slash
     if pre.isEmpty && body.isEmpty then [46] else pre ++ body
 
-/-- the characters a `-z` word may be made of for the model to answer: the word is pasted into a regular expression
-unescaped, so anything else (`.`, `+`, `(` …) means something to `re` -/
-def plainWordChar (c : Nat) : Bool := Str.isDigit c || (65 ≤ c && c ≤ 90) || (97 ≤ c && c ≤ 122) || c == 95 || c == 45
-
-/-- `re.search(r"/%s(/|$)" % dbz, p)` for a `dbz` of plain characters: `/dbz` occurs in `p` followed by `/` or by the
-end of the text -/
+/-- `re.search(r"/%s(/|$)" % re.escape(dbz), p)` (fix D93: the word is taken literally; before it was pasted into the
+pattern unescaped, so `-z st.ck` also selected `.../stock`): `/dbz` occurs in `p` followed by `/` or by the end of the text -/
 def dbzMatches (dbz : Str) : Str → Bool
   | [] => false
   | c :: cs =>
@@ -68,7 +64,7 @@ def dbzMatches (dbz : Str) : Str → Bool
        | d :: _ => d == slash)) || dbzMatches dbz cs
 
 inductive PathErr where
-  | unsupported      -- a `-z` word with characters that are regular-expression syntax
+  | unsupported      -- never produced since fix D93 (a `-z` word with regular-expression characters, before it)
 deriving DecidableEq, Repr
 
 /-- keep the first occurrence of each directory (`if eups_path.count(p) == 0`) -/
@@ -83,7 +79,6 @@ def setEupsPath (isdir : Str → Bool) (path : Str) (dbz : Option Str) : Except 
   match dbz with
   | some z =>
     if z.isEmpty then .ok (uniqDirs [] ((parts.filter isdir).map normpath))          -- `if dbz:` — an empty word selects nothing
-    else if !z.all plainWordChar then .error .unsupported
     else .ok (uniqDirs [] (((parts.filter (dbzMatches z)).filter isdir).map normpath))
   | none => .ok (uniqDirs [] ((parts.filter isdir).map normpath))
 
